@@ -118,6 +118,22 @@ Definition float1 (f : f64 -> f64) (args : list value) : res value :=
   | _ => Err
   end.
 
+(** [FunctionWrapper::Num1] (fix 43e6167): a function that maps integers to integers answers an
+    integer argument (or text holding one) exactly, anything else through the double *)
+Definition exact_int (args : list value) : option Z :=
+  match args with
+  | [VInt i] => Some i
+  | [VStr s] => match from_string s with VInt i => Some i | _ => None end
+  | _ => None
+  end.
+Definition num1 (fi : Z -> option Z) (f : f64 -> f64) (args : list value) : res value :=
+  match (match exact_int args with Some i => fi i | None => None end) with
+  | Some i => Ok (VInt i)
+  | None => float1 f args
+  end.
+(** [i64::checked_abs] *)
+Definition checked_abs (i : Z) : option Z := if in_i64 (Z.abs i) then Some (Z.abs i) else None.
+
 Definition hex_digit_val (c : N) : option N := hex_val c.
 
 Fixpoint hex_digits_val (s : str) (acc : Z) : option Z :=
@@ -216,12 +232,12 @@ Definition parse_rfc3339_utc (s : str) : option Z :=
   end.
 
 Definition eval_func (f : str) (args : list value) : res value :=
-  if is_name f "abs" then float1 fabs args
-  else if is_name f "ceil" then float1 fceil args
-  else if is_name f "floor" then float1 ffloor args
-  else if is_name f "round" then float1 fround args
+  if is_name f "abs" then num1 checked_abs fabs args
+  else if is_name f "ceil" then num1 Some fceil args
+  else if is_name f "floor" then num1 Some ffloor args
+  else if is_name f "round" then num1 Some fround args
   else if is_name f "sqrt" then float1 fsqrt args
-  else if is_name f "num" then float1 (fun x => x) args
+  else if is_name f "num" then num1 Some (fun x => x) args
   else if is_name f "concat" then do s <- concat_displays args; Ok (VStr s)
   else if is_name f "contains" then
     match args with
